@@ -22,6 +22,8 @@ func NewInMemoryStore() Persist {
 }
 
 func (ims *inMemoryStore) Store(ctx context.Context, key string, value []byte) error {
+	// keep a private copy: the caller may reuse its buffer
+	value = append([]byte(nil), value...)
 	ims.l.Lock()
 	if ims.entries == nil {
 		ims.entries = map[string][]byte{key: value}
@@ -39,7 +41,8 @@ func (ims *inMemoryStore) Load(ctx context.Context, key string) ([]byte, error) 
 	if !ok {
 		return nil, fmt.Errorf("inMemoryStore entry not found for %s", key)
 	}
-	return value, nil
+	// hand out a copy: what the caller does with it must not change the store
+	return append([]byte(nil), value...), nil
 }
 
 // NodeURLPrefix identifies this store among the stores of the process. (The
